@@ -235,6 +235,7 @@ func checkBaseDisplay(c *Ctx, rule, label string, str *ssa.Function, withHeight 
 	want := []string{"AntennaRefX", "AntennaRefY", "AntennaRefZ"}
 	gotCoords, gotHeight := false, !withHeight
 	var shown []*ssa.Call
+	singles := map[string]*ssa.Call{} // one formatting call per coordinate (a helper that formats one value, expanded)
 	rawInts := map[string]bool{}
 	eachInstr(str, func(ins ssa.Instruction) {
 		call, ok := ins.(*ssa.Call)
@@ -282,12 +283,25 @@ func checkBaseDisplay(c *Ctx, rule, label string, str *ssa.Function, withHeight 
 		} else if len(names) == 3 {
 			c.Fail(rule, label+":coords", call.Pos(), "refuted", fmt.Sprintf("the coordinate line shows %v, expected X, Y, Z", names))
 		}
+		if len(names) == 1 && all4 && strings.HasPrefix(names[0], "AntennaRef") {
+			singles[names[0]] = call
+		}
 		if len(names) == 1 && names[0] == "AntennaHeight" && all4 {
 			gotHeight = true
 			shown = append(shown, call)
 			c.OK(rule, label+":height", call.Pos(), "height = float64(AntennaHeight)*0.0001 formatted %.4f")
 		}
 	})
+	if !gotCoords && singles[want[0]] != nil && singles[want[1]] != nil && singles[want[2]] != nil {
+		x, y, z := singles[want[0]], singles[want[1]], singles[want[2]]
+		if instrDominates(x, y) && instrDominates(y, z) {
+			gotCoords = true
+			shown = append(shown, x, y, z)
+			c.OK(rule, label+":coords", x.Pos(), "X, Y, Z formatted one after the other, each float64(field)*0.0001 with %.4f")
+		} else {
+			c.Fail(rule, label+":coords", x.Pos(), "refuted", "the three coordinates are not formatted in the order X, Y, Z")
+		}
+	}
 	c.Check(gotCoords, rule, label+":coords-present", str.Pos(), "the readable form shows the three coordinates scaled by 0.0001 to four decimals", "the readable form does not show X, Y, Z as field*0.0001 with %.4f")
 	if withHeight {
 		c.Check(gotHeight, rule, label+":height-present", str.Pos(), "the readable form shows the antenna height scaled by 0.0001 to four decimals", "the readable form does not show the height as field*0.0001 with %.4f")
